@@ -150,7 +150,47 @@ def _called(ex, args, node):
     return vbool(name in ex.last_abs_result)
 
 
-BASE_SPEC_FUNCS = {"popcount": _popcount, "isfinite": _isfinite, "lastcall": _lastcall, "called": _called}
+def _unwrap(ex, args, node):
+    v = args[0]
+    return opt_val(v) if isinstance(v.ty, TOpt) else v
+
+
+def _store(ex, args, node):
+    d, k, v = args
+    kt = term_of(coerce(k, d.ty.k))
+    had = z3.Select(dict_dom(d), kt)
+    return mk_dict(d.ty, z3.If(had, dict_size(d), dict_size(d) + 1), z3.Store(dict_dom(d), kt, z3.BoolVal(True)),
+                   z3.Store(dict_map(d), kt, term_of(coerce(v, d.ty.v))))
+
+
+def _shift_down(ex, args, node):
+    """Ghost position map after removing position j: positions above j move down by one."""
+    d, j = args
+    k = z3.Const("sdk!%d" % ex.bound_counter(), sort(d.ty.k))
+    m = dict_map(d)
+    newmap = z3.Lambda([k], z3.If(z3.Select(m, k) > j.t, z3.Select(m, k) - 1, z3.Select(m, k)))
+    return mk_dict(d.ty, dict_size(d), dict_dom(d), newmap)
+
+
+def _list_remove(ex, args, node):
+    l, j = args
+    ln = list_len(l)
+    res = ex.ctx.fresh("removed", l.ty)
+    i = z3.Int("lri!%d" % ex.bound_counter())
+    ri = z3.Select(list_arr(res), i)
+    ex.ctx.assume(list_len(res) == ln - 1)
+    ex.ctx.assume(z3.ForAll([i], z3.Implies(z3.And(0 <= i, i < ln - 1),
+                                            ri == z3.If(i < j.t, z3.Select(list_arr(l), i), z3.Select(list_arr(l), i + 1))),
+                            patterns=[ri]))
+    return res
+
+
+def _allocated(ex, args, node):
+    return vbool(z3.Select(ex.ctx.alloc, args[0].t))
+
+
+BASE_SPEC_FUNCS = {"allocated": _allocated, "popcount": _popcount, "isfinite": _isfinite, "lastcall": _lastcall, "called": _called,
+                   "unwrap": _unwrap, "store": _store, "shift_down": _shift_down, "list_remove": _list_remove}
 
 
 class FnResult(object):
